@@ -67,6 +67,11 @@ where
 
     /// The maximum size for goals.
     max_size: usize,
+
+    /// Set when `should_continue` returned false while solving the current
+    /// root goal: some iteration was cut short with an ambiguous placeholder
+    /// answer, so what is computed from here on is not a final result.
+    interrupted: bool,
 }
 
 pub(super) trait SolverStuff<K, V>: Copy
@@ -117,11 +122,17 @@ where
             search_graph: SearchGraph::new(),
             cache,
             max_size,
+            interrupted: false,
         }
     }
 
     pub fn max_size(&self) -> usize {
         self.max_size
+    }
+
+    /// Records that solving was cut short by the caller (see `interrupted`).
+    pub fn set_interrupted(&mut self) {
+        self.interrupted = true;
     }
 
     /// Solves a canonical goal. The substitution returned in the
@@ -152,6 +163,7 @@ where
         // what was completely solved before is in the cache.
         self.stack.clear();
         self.search_graph.clear();
+        self.interrupted = false;
         let minimums = &mut Minimums::new();
         self.solve_goal(canonical_goal, minimums, solver_stuff, should_continue)
     }
@@ -224,14 +236,20 @@ where
             // cache now. This is a sort of hack to alleviate the
             // worst of the repeated work that we do during tabling.
             if subgoal_minimums.positive >= dfn {
-                if let Some(cache) = &mut self.cache {
-                    self.search_graph.move_to_cache(dfn, cache);
-                    debug!("solve_reduced_goal: SCC head encountered, moving to cache");
-                } else {
-                    debug!(
-                        "solve_reduced_goal: SCC head encountered, rolling back as caching disabled"
-                    );
-                    self.search_graph.rollback_to(dfn);
+                match &mut self.cache {
+                    // Results obtained after an interruption may derive from the
+                    // placeholder answer of the iteration that was cut short:
+                    // they must not be served to later queries.
+                    Some(cache) if !self.interrupted => {
+                        self.search_graph.move_to_cache(dfn, cache);
+                        debug!("solve_reduced_goal: SCC head encountered, moving to cache");
+                    }
+                    _ => {
+                        debug!(
+                            "solve_reduced_goal: SCC head encountered, rolling back as caching disabled or solving was interrupted"
+                        );
+                        self.search_graph.rollback_to(dfn);
+                    }
                 }
             }
 
